@@ -18,6 +18,7 @@ CONSTANTS
   Cuts = FALSE
   MaxNow = 0
   MaxLevel = 20
+  Pipe = TRUE
   MaxDin = 3
 INIT MCInit
 NEXT MCNext
